@@ -706,9 +706,8 @@ func MergeRows(_ interface{},
 		}
 	}
 
-	if res.Deleted {
-		return &res
-	}
+	// A deleted row keeps its column values (they stay invisible): dropping
+	// them here would make the result depend on the order of later merges.
 
 	allKeys := make(map[string]struct{})
 	for k := range r1.ColumnValues {
